@@ -1474,8 +1474,12 @@ func (s *SelectStatement) RewriteRegexConditions() {
 			return e
 		}
 
-		// Handle regex-based condition.
-		rhs := be.RHS.(*RegexLiteral) // This must be a regex.
+		// Handle regex-based condition. The right operand is not a regex
+		// when an operator that binds tighter follows it (a =~ /x/ * 2).
+		rhs, ok := be.RHS.(*RegexLiteral)
+		if !ok {
+			return e
+		}
 
 		vals, ok := matchExactRegex(rhs.Val.String())
 		if !ok {
